@@ -8,6 +8,7 @@ import (
 	"os"
 	"path/filepath"
 	"runtime"
+	"runtime/debug"
 	"runtime/pprof"
 	"strings"
 	"time"
@@ -40,6 +41,7 @@ type Harness struct {
 	Reach    []string          `json:"reach"` // witnesses that must be reachable
 	TimeoutS int               `json:"query_timeout_s"`
 	Workers  int               `json:"workers"`
+	Solver   string            `json:"solver"` // override of the per-mode default, e.g. "z3 -in"
 }
 
 type Registry struct {
@@ -83,6 +85,10 @@ func (h *Harness) config() symex.Config {
 }
 
 func main() {
+	// The loaded SSA program is a large, long-lived heap; the default GC target makes 16 allocating workers
+	// re-scan it continuously and starves the solver processes.
+	debug.SetGCPercent(1500)
+	debug.SetMemoryLimit(40 << 30)
 	if len(os.Args) < 2 {
 		fmt.Fprintln(os.Stderr, "usage: verif check <ID> [--tier quick|thorough] | run <harness> | list | replay <path> | syncbmc ...")
 		os.Exit(2)
@@ -116,7 +122,7 @@ func cmdRun(args []string) int {
 	workers := fs.Int("workers", runtime.NumCPU(), "workers")
 	logq := fs.String("logq", "", "directory for solver transcripts")
 	maxPaths := fs.Int("maxpaths", 0, "path budget")
-	solver := fs.String("solver", "z3 -in", "solver command")
+	solver := fs.String("solver", "", "solver command (default: z3-new -in, else z3 -in)")
 	cpuprof := fs.String("cpuprofile", "", "write cpu profile")
 	fs.Parse(args)
 	if *cpuprof != "" {
@@ -154,6 +160,12 @@ func cmdRun(args []string) int {
 			return 3
 		}
 		opts := symex.ExploreOpts{Workers: *workers, Verbose: *verbose, LogQueries: *logq, MaxPaths: *maxPaths, SolverCmd: strings.Fields(*solver)}
+		if *solver == "" {
+			opts.SolverCmd = nil
+			if h.Solver != "" {
+				opts.SolverCmd = strings.Fields(h.Solver)
+			}
+		}
 		if h.TimeoutS > 0 {
 			opts.TimeoutMs = h.TimeoutS * 1000
 		}
